@@ -202,7 +202,7 @@ class _Helper:
 
     def admissible(self):
         n = self.node
-        if isinstance(n, ast.AsyncFunctionDef) or n.args.vararg or n.args.kwarg or not self.body:
+        if isinstance(n, ast.AsyncFunctionDef) or n.args.vararg or not self.body:
             return False
         if self.name.startswith("__") and self.name.endswith("__"):
             return False
@@ -229,6 +229,9 @@ class _Helper:
         return len(_stmts(n)) <= MAX_STMTS
 
     # which call forms the body allows
+    def is_gen_safe(self):
+        return not any(isinstance(x, (ast.Yield, ast.YieldFrom)) for x in ast.walk(self.node))
+
     def expr_form(self):
         if not isinstance(self.body[-1], ast.Return) or self.body[-1].value is None or len(self.returns) != 1:
             return False
@@ -311,10 +314,18 @@ def _bind(h, call, caller_self):
         return None
     for p, a in zip(params, call.args):
         m[p] = a
+    extra = []
     for k in call.keywords:
-        if k.arg in m or k.arg not in params + h.kwonly:
+        if k.arg in m:
             return None
+        if k.arg not in params + h.kwonly:
+            if h.node.args.kwarg is None:
+                return None
+            extra.append(k)          # collected by **kwarg: a dictionary display with these very keys
+            continue
         m[k.arg] = k.value
+    if h.node.args.kwarg is not None:
+        m[h.node.args.kwarg.arg] = ast.Dict(keys=[ast.Constant(value=k.arg) for k in extra], values=[k.value for k in extra])
     for p in params + h.kwonly:
         if p not in m:
             if p not in h.defaults:
@@ -589,6 +600,8 @@ def normalise(trees, protected):
             done.append("%s:<%d loop(s) over a constant table unrolled>" % (mn, k))
     for _ in range(160):
         one = _one_pass(trees, protected)
+        if one is None and _lower_updates(trees):
+            one = "~dictionary updates by a display written as stores"
         if one is None:
             one = _dissolve_object(trees, protected)
         if one is None:
@@ -933,10 +946,36 @@ def _class_shape(k):
     return fields, defaults, methods, dc
 
 
-def _pseudo_helper(mod, meth, mapping):
-    """The method as a function over the field locals (self.<f> -> <local>), or None."""
+class _K:
+    name = "<record>"
+
+
+def _pseudo_helper(mod, meth, mapping, methods=None):
+    """The method as a function over the field locals (self.<f> -> <local>), or None.  Calls of other one-expression methods
+    of the same object (`self.ratio()`) are replaced by those expressions first."""
     node = copy.deepcopy(meth)
     sn = node.args.args[0].arg
+    for _ in range(6):
+        parent = _parents(node)
+        inner = [c for c in ast.walk(node) if isinstance(c, ast.Call) and isinstance(c.func, ast.Attribute) and isinstance(c.func.value, ast.Name) and c.func.value.id == sn
+                 and methods and c.func.attr in methods and methods[c.func.attr] is not meth]
+        if not inner:
+            break
+        c = inner[0]
+        hm = _Helper(mod, _K, copy.deepcopy(methods[c.func.attr]))
+        if hm.is_gen_safe() is False or not hm.expr_form():
+            return None
+        repl = _instantiate(hm, c, node, sn, "expr")
+        if repl is None:
+            return None
+        holder = parent.get(c)
+        for fname, val in ast.iter_fields(holder):
+            if val is c:
+                setattr(holder, fname, repl)
+            elif isinstance(val, list):
+                for i, v in enumerate(val):
+                    if v is c:
+                        val[i] = repl
     node.args.args = node.args.args[1:]
     node.name = node.name.strip("_") or "m"
     node.decorator_list = []
@@ -962,7 +1001,16 @@ def _dissolve_object(trees, protected):
             # every mention of the class name, package wide
             elsewhere = False
             for mn2, t2 in trees.items():
+                ann = set()
+                for fdef in [n for n in ast.walk(t2) if isinstance(n, (ast.FunctionDef, ast.AsyncFunctionDef))]:
+                    for a_ in fdef.args.posonlyargs + fdef.args.args + fdef.args.kwonlyargs:
+                        if a_.annotation is not None:
+                            ann.update(id(x) for x in ast.walk(a_.annotation))
+                    if fdef.returns is not None:
+                        ann.update(id(x) for x in ast.walk(fdef.returns))
                 for n in ast.walk(t2):
+                    if id(n) in ann:
+                        continue        # a type annotation: evaluated to nothing that matters
                     if (isinstance(n, ast.Name) and n.id == k.name) or (isinstance(n, ast.Attribute) and n.attr == k.name) \
                             or (isinstance(n, ast.Constant) and n.value == k.name) or (isinstance(n, (ast.Import, ast.ImportFrom)) and any(k.name in (al.name, al.asname) for al in n.names)):
                         if mn2 != mn or not isinstance(n, ast.Name):
@@ -980,6 +1028,13 @@ def _dissolve_in(tree, mn, kname, shape):
     fields, defaults, methods, dc = shape
     started = set()
     touched = []
+    # type annotations that name the class go with it
+    for fdef in [n for n in ast.walk(tree) if isinstance(n, (ast.FunctionDef, ast.AsyncFunctionDef))]:
+        for a_ in fdef.args.posonlyargs + fdef.args.args + fdef.args.kwonlyargs:
+            if a_.annotation is not None and any(isinstance(x, ast.Name) and x.id == kname for x in ast.walk(a_.annotation)):
+                a_.annotation = None
+        if fdef.returns is not None and any(isinstance(x, ast.Name) and x.id == kname for x in ast.walk(fdef.returns)):
+            fdef.returns = None
     for _ in range(40):
         parent = _parents(tree)
         cons = [n for n in ast.walk(tree) if isinstance(n, ast.Name) and n.id == kname and isinstance(n.ctx, ast.Load)]
@@ -1027,7 +1082,7 @@ def _dissolve_in(tree, mn, kname, shape):
                 break
             attr = parent[pending[0]]
             mcall = parent[attr]
-            h = _pseudo_helper(mn, methods[attr.attr], mapping)
+            h = _pseudo_helper(mn, methods[attr.attr], mapping, methods)
             if h is None or h.is_gen or attr.attr == "__init__":
                 return False
             st = parent.get(mcall)
@@ -1066,7 +1121,7 @@ def _dissolve_in(tree, mn, kname, shape):
         for n in [n for n in ast.walk(f) if isinstance(n, ast.Name) and n.id == x and isinstance(n.ctx, ast.Load)]:
             a = parent.get(n)
             if isinstance(a, ast.Attribute) and a.value is n and ("@" + a.attr) in methods and isinstance(a.ctx, ast.Load):
-                hp = _pseudo_helper(mn, methods["@" + a.attr], mapping)
+                hp = _pseudo_helper(mn, methods["@" + a.attr], mapping, methods)
                 if hp is None or hp.is_gen or not hp.expr_form():
                     return False
                 fake = ast.copy_location(ast.Call(func=ast.Name(id=a.attr, ctx=ast.Load()), args=[], keywords=[]), a)
@@ -1117,7 +1172,7 @@ def _dissolve_in(tree, mn, kname, shape):
                 new.append(ast.copy_location(ast.Assign(targets=[ast.Name(id=mapping[fl], ctx=ast.Store())], value=copy.deepcopy(v), lineno=asg.lineno), asg))
             new = new or [ast.copy_location(ast.Pass(), asg)]
         else:
-            h = _pseudo_helper(mn, methods["__init__"], mapping)
+            h = _pseudo_helper(mn, methods["__init__"], mapping, methods)
             if h is None or h.is_gen or not h.stmt_form():
                 return False
             new = _instantiate(h, call, f, None, "stmt", shared=set(mapping.values()))
@@ -1373,3 +1428,58 @@ def _unroll_constant_loops(tree):
             if changed:
                 break
     return n_done
+
+
+# ---------------------------------------------------------------------------------------------------------------------------
+# X.update({"k": v, ...})  ==>  X["k"] = v; ...      (statement; constant keys; also through a local bound once to the display
+# just for this purpose - what `**extra` of an inlined helper becomes).  X.update({}) disappears.
+
+def _lower_updates(trees):
+    did = False
+    for t in trees.values():
+        for f in [n for n in ast.walk(t) if isinstance(n, ast.FunctionDef)]:
+            for _ in range(20):
+                if not _lower_update_in(f):
+                    break
+                did = True
+    return did
+
+
+def _lower_update_in(f):
+    parent = _parents(f)
+    own = [n for n in ast.walk(f)]
+    for st in own:
+        if not (isinstance(st, ast.Expr) and isinstance(st.value, ast.Call) and isinstance(st.value.func, ast.Attribute) and st.value.func.attr == "update"
+                and len(st.value.args) == 1 and not st.value.keywords and _simple_target(st.value.func.value)):
+            continue
+        arg = st.value.args[0]
+        drop = None
+        if isinstance(arg, ast.Name):
+            defs = [n for n in own if isinstance(n, ast.Assign) and len(n.targets) == 1 and isinstance(n.targets[0], ast.Name) and n.targets[0].id == arg.id]
+            uses = [n for n in own if isinstance(n, ast.Name) and n.id == arg.id]
+            if len(defs) == 1 and len(uses) == 2 and isinstance(defs[0].value, ast.Dict):
+                drop, arg = defs[0], defs[0].value
+        if not (isinstance(arg, ast.Dict) and all(k is not None and isinstance(k, ast.Constant) for k in arg.keys) and all(_pure(v) or isinstance(v, ast.Call) for v in arg.values)):
+            continue
+        holder = parent.get(st)
+        lst = next((getattr(holder, fn_) for fn_ in ("body", "orelse", "finalbody") if isinstance(getattr(holder, fn_, None), list) and st in getattr(holder, fn_)), None)
+        if lst is None:
+            continue
+        if drop is not None:
+            h2 = parent.get(drop)
+            l2 = next((getattr(h2, fn_) for fn_ in ("body", "orelse", "finalbody") if isinstance(getattr(h2, fn_, None), list) and drop in getattr(h2, fn_)), None)
+            if l2 is None or not all(_pure(v) for v in arg.values):
+                continue        # the values would be evaluated later than they were
+            l2.remove(drop)
+            if not l2:
+                l2.append(ast.copy_location(ast.Pass(), drop))
+        new = []
+        for k, v in zip(arg.keys, arg.values):
+            tgt = ast.Subscript(value=copy.deepcopy(st.value.func.value), slice=k, ctx=ast.Store())
+            new.append(ast.copy_location(ast.Assign(targets=[tgt], value=v, lineno=st.lineno), st))
+        for n_ in new:
+            ast.fix_missing_locations(n_)
+        i = lst.index(st)
+        lst[i:i + 1] = new or ([ast.copy_location(ast.Pass(), st)] if len(lst) == 1 else [])
+        return True
+    return False
